@@ -64,7 +64,7 @@ def execute(call):
     rec = {"kind": kind, "name": name, "in": cps, "py": _out(py, s), "c": _out(c, s)}
     for be, f in (("py", py), ("c", c)):
         o = rec[be]
-        rec[be + "2"] = _out(f, U(o["ok"])) if "ok" in o and kind == "quote" else {"exc": "n/a"}
+        rec[be + "2"] = _out(f, U(o["ok"])) if "ok" in o and kind == "quote" and len(cps) <= 400 else {"exc": "n/a"}
     return rec
 
 
@@ -94,8 +94,8 @@ def gen(params):
     elif mode == "ascii_sweep":      # 128 x {literal, %XX, %xx} x 4 contexts x all configurations
         for ch in range(128):
             for form in (chr(ch), "%%%02X" % ch, "%%%02x" % ch):
-                for ctx in ("{}", "a{}b", "%{}", "{}%41", "{}{}"):
-                    cps = T(ctx.format(form, form) if ctx == "{}{}" else ctx.format(form))
+                for ctx in ("{}", "a{}b", "%{}", "{}%41", "{}{}", "%{}{}", "%4{}"):
+                    cps = T(ctx.format(form, form) if ctx.count("{}") == 2 else ctx.format(form))
                     for name in QUOTERS:
                         yield {"kind": "quote", "name": name, "in": cps}
                     for name in UNQUOTERS:
@@ -128,6 +128,23 @@ def gen(params):
                 yield {"kind": "quote", "name": rnd.choice(QUOTERS), "in": cps}
             else:
                 yield {"kind": "unquote", "name": rnd.choice(UNQUOTERS), "in": cps}
+    elif mode == "boundary":         # outputs that cross the compiled writer's 8 KiB growth boundaries
+        toks = [" ", "%41", "%7e", "%2f", "\u00e9", "\u20ac", "\U0001F600", "/", "+", "%", "\ud800", "%zz", "<"]
+        fillers = ["a", "\u00e9", "%20", " "]
+        for name in QUOTERS + UNQUOTERS:
+            kind = "quote" if name in QUOTERS else "unquote"
+            for fill in fillers:
+                py, c, _ = _inst[name]
+                unit = len(py(fill)) or 1
+                for k in (1, 2, 3):
+                    for delta in range(-4, 2):
+                        n = (8192 * k + delta) // unit
+                        if n <= 0:
+                            continue
+                        for tok in toks:
+                            core = fill == "a" and delta in (-1, 0, 1) and (k == 1 or delta == 0)
+                            if core or rnd.random() < params.get("keep", 1.0):
+                                yield {"kind": kind, "name": name, "in": T(fill * n + tok + "b")}
     elif mode == "calls":
         yield from params["calls"]
     else:
